@@ -1,6 +1,7 @@
 // Simulated element types: TrackedT<NoexceptMove> (observable lifetime, injected exceptions),
 // Conv (convertible source type), Triv (trivially copyable: memory effects only).
 #pragma once
+#include <cstring>
 #include <string>
 #include <type_traits>
 
@@ -159,7 +160,7 @@ template<class E> struct elem_traits;
 template<bool N> struct elem_traits<TrackedT<N>> {
 	using E    = TrackedT<N>;
 	using conv = Conv;
-	static constexpr bool tracked = true, throwing_move = !N;
+	static constexpr bool tracked = true, throwing_move = !N, trivial = false;
 	static auto make(i64 v) -> E { return E{v}; }
 	static auto make_conv(i64 v) -> Conv { return Conv{v}; }
 	// read with lifetime check; `ok` is cleared when the object is dead
@@ -176,11 +177,51 @@ template<bool N> struct elem_traits<TrackedT<N>> {
 template<> struct elem_traits<Triv> {
 	using E    = Triv;
 	using conv = ConvTriv;
-	static constexpr bool tracked = false, throwing_move = false;
+	static constexpr bool tracked = false, throwing_move = false, trivial = true;
 	static auto make(i64 v) -> E { return E{v}; }
 	static auto make_conv(i64 v) -> ConvTriv { return ConvTriv{v}; }
 	static auto read(E const& e, bool& /*ok*/) -> i64 { return e.v; }
 	static void write(E& e, i64 v) { e.v = v; }
+	static constexpr i64 value_init = 0;
+};
+
+// ---- plain value element types (serialization coverage): no lifetime tracking, values mapped from/to i64
+template<> struct elem_traits<double> {
+	using E    = double;
+	using conv = double;
+	static constexpr bool tracked = false, throwing_move = false, trivial = true;
+	static auto make(i64 v) -> E { return static_cast<double>(v); }
+	static auto make_conv(i64 v) -> conv { return static_cast<double>(v); }
+	static auto read(E const& e, bool& /*ok*/) -> i64 {
+		i64 r;
+		static_assert(sizeof r == sizeof e);
+		if(e == static_cast<double>(static_cast<i64>(e)) && e > -1e15 && e < 1e15) return static_cast<i64>(e);
+		std::memcpy(&r, &e, sizeof r);  // not an integer: return the bit pattern (a fresh block reads as FRESH_I64)
+		return r;
+	}
+	static void write(E& e, i64 v) { e = static_cast<double>(v); }
+	static constexpr i64 value_init = 0;
+};
+// a serialisable element that owns heap state; wrapped because a bare std::string element is itself a range and
+// makes several array constructors ambiguous (not what any claimed property is about)
+struct StrElem {
+	std::string s;
+	friend bool operator==(StrElem const& a, StrElem const& b) { return a.s == b.s; }
+	friend bool operator!=(StrElem const& a, StrElem const& b) { return a.s != b.s; }
+};
+template<> struct elem_traits<StrElem> {
+	using E    = StrElem;
+	using conv = StrElem;
+	static constexpr bool tracked = false, throwing_move = false, trivial = false;
+	static auto make(i64 v) -> E { return E{v == 0 ? std::string{} : "value-" + std::to_string(v)}; }
+	static auto make_conv(i64 v) -> conv { return make(v); }
+	static auto read(E const& e, bool& ok) -> i64 {
+		if(e.s.empty()) return 0;
+		(void)ok;
+		if(e.s.rfind("value-", 0) != 0) return -3;  // malformed (only possible after an injected stream fault): a value like any other
+		return std::atoll(e.s.c_str() + 6);
+	}
+	static void write(E& e, i64 v) { e = make(v); }
 	static constexpr i64 value_init = 0;
 };
 
